@@ -75,6 +75,10 @@ func c13Encode(nbytes int) {
 	raw, err := MnemonicToByteArray(m, true)
 	rt.Assert(err == nil && bytes.Equal(raw, entropy), "byte-array-form-returns-the-entropy")
 	rt.Assert(IsMnemonicValid(m), "produced-mnemonic-is-valid")
+	// decoding is a function of the text: a second decode in the same process (after the first one and after the
+	// validity check) returns the same entropy
+	again, err := EntropyFromMnemonic(m)
+	rt.Assert(err == nil && bytes.Equal(again, entropy), "second-decoding-returns-the-entropy")
 	rt.Reach("end")
 }
 
